@@ -241,4 +241,84 @@ theorem introspect_edges_eq {doc : Doc} {s : Schema} (h : AcceptedFacts doc s) :
     exact edgeWithTarget_eq h htm hf.1 (by simpa using hf.2)
 
 
+/-! #### `params` -/
+
+/-- The documented `default` of a parameter: the declared constant; otherwise `null` (as JSON) for a
+nullable parameter and no value for a non-nullable one. -/
+def declaredDefault (a : Arg) : Cell :=
+  match a.default with
+  | some (.val v) => .json v
+  | _ => if a.ty.nullable then .json .null else .null
+
+def paramCells (a : Arg) : Row :=
+  [("param", .str a.name), ("type", .str a.ty.display), ("default", declaredDefault a)]
+
+theorem defaultCell_eq {doc : Doc} {s : Schema} (h : AcceptedFacts doc s) {t : TypeDef}
+    (ht : t ∈ doc.types) {f : Field} (hf : f ∈ t.fields) (he : isBuiltin f.ty.base = false)
+    {a : Arg} (ha : a ∈ f.args) : defaultCell a = .ok (declaredDefault a) := by
+  unfold defaultCell declaredDefault
+  cases hd : a.default with
+  | none => cases a.ty.nullable <;> rfl
+  | some dv =>
+    obtain ⟨v, hv, _⟩ := h.valid.defaultsFit t ht f hf he a ha dv hd
+    subst hv; rfl
+
+theorem edgeWithParams_eq {doc : Doc} {s : Schema} (h : AcceptedFacts doc s) {t : TypeDef}
+    (ht : t ∈ doc.types) {f : Field} (hf : f ∈ t.fields) (he : isBuiltin f.ty.base = false) :
+    edgeWithParams s "edge" (.edge f) = .ok (f.args.map fun a => [("edge", Cell.str f.name)] ++ paramCells a) := by
+  simp only [edgeWithParams, outputs, resolveProperty, asEdge, Outcome.bind, expand, resolveNeighbors,
+    String.reduceBEq, Bool.false_eq_true, if_false, if_true]
+  rw [collect_map, collect_singletons _ paramCells]
+  · simp
+  · intro a ha
+    simp [leaf, paramOuts, outputs, resolveProperty, asEdgeParameter, Outcome.bind, defaultCell_eq h ht hf he ha,
+      paramCells]
+
+def paramRows (t : TypeDef) : List Row :=
+  (t.fields.filter (fun f => !isBuiltin f.ty.base)).flatMap fun f =>
+    f.args.map fun a => [("name", .str t.name), ("edge", .str f.name)] ++ paramCells a
+
+theorem introspect_params_eq {doc : Doc} {s : Schema} (h : AcceptedFacts doc s) :
+    introspect s .params = .ok ((listed doc s.queryType.name).flatMap paramRows) := by
+  unfold introspect
+  apply rows_perVertexType h
+  intro t ht
+  have htm := listed_mem ht
+  simp only [outputs, resolveProperty, asVertexType, Outcome.bind, expand, resolveNeighbors,
+    String.reduceBEq, Bool.false_eq_true, if_false, if_true, edgeNeighbors_eq h htm]
+  rw [collect_map, collect_ok_of_forall _ (fun f : Field =>
+    f.args.map fun a => [("edge", Cell.str f.name)] ++ paramCells a)]
+  · simp [paramRows, List.map_flatMap, Function.comp_def]
+  · intro f hf
+    rw [List.mem_filter] at hf
+    exact edgeWithParams_eq h htm hf.1 (by simpa using hf.2)
+
+/-! #### `entrypoints` -/
+
+theorem root_field_is_edge {doc : Doc} {s : Schema} (h : AcceptedFacts doc s) {f : Field}
+    (hf : f ∈ s.queryType.fields) : isBuiltin f.ty.base = false :=
+  h.valid.rootFieldsAreEdges s.queryType h.rootMem (by simp [h.rootBlock]) f hf
+
+theorem introspect_entrypoints_eq {doc : Doc} {s : Schema} (h : AcceptedFacts doc s) :
+    introspect s .entrypoints =
+      .ok (s.queryType.fields.map fun f => edgeCells f ++ [("target", .str f.ty.base)]) := by
+  unfold introspect
+  simp only [startingVertices, String.reduceBEq, Bool.false_eq_true, if_false, if_true, Outcome.bind,
+    entrypointsIter]
+  rw [collect_map, collect_singletons _ (fun f : Field => edgeCells f ++ [("target", Cell.str f.ty.base)])]
+  intro f hf
+  exact edgeWithTarget_eq h h.rootMem hf (root_field_is_edge h hf)
+
+theorem introspect_entryParams_eq {doc : Doc} {s : Schema} (h : AcceptedFacts doc s) :
+    introspect s .entryParams =
+      .ok (s.queryType.fields.flatMap fun f => f.args.map fun a => [("edge", Cell.str f.name)] ++ paramCells a) := by
+  unfold introspect
+  simp only [startingVertices, String.reduceBEq, Bool.false_eq_true, if_false, if_true, Outcome.bind,
+    entrypointsIter]
+  rw [collect_map]
+  apply collect_ok_of_forall
+  intro f hf
+  exact edgeWithParams_eq h h.rootMem hf (root_field_is_edge h hf)
+
+
 end TF.SchemaDoc
